@@ -197,7 +197,7 @@ func (x *Exec) VerifyFunction() (res *FuncResult) {
 			}
 		}
 		for _, h := range x.fc.Hooks {
-			if h.Used == 0 && x.fc.Opts["optional-hooks"] == "" {
+			if h.Used == 0 && x.fc.Opts["optional-hooks"] == "" && !h.Optional {
 				o := x.oblig(fmt.Sprintf("drift[on %s %q not found]", h.Kind, h.Anchor), "drift", nil, fn.Pos())
 				o.Structural, o.StructOK = true, false
 				o.Detail = fmt.Sprintf("%s:%d: hook anchor matches no instruction of %s", shortPath(h.File), h.Line, x.name)
